@@ -200,7 +200,7 @@ const NON_MOVES: [Action; 6] = [
 /// Roots of the exhaustive sequences: (label, FEN, prefix moves, alphabet moves, full
 /// non-move alphabet?).  Roots with a prefix use the reduced non-move alphabet
 /// {offer:w, accept, decline, resign:b} to keep the replayed prefixes affordable.
-const ROOTS: [(&str, &str, &[&str], &[&str], bool); 45] = [
+const ROOTS: [(&str, &str, &[&str], &[&str], bool); 47] = [
     ("start", gen::START_FEN, &[], &["e2e4", "e7e5", "Ng1f3"], true),
     ("mate_w", "6k1/5ppp/8/8/8/8/8/R3K3 w Q - 0 1", &[], &["Ra1a8", "Ke1e2", "O-O-O", "Ra1b2"], true),
     ("mate_b", "r3k3/8/8/8/8/8/5PPP/6K1 b q - 0 1", &[], &["Ra8a1", "Ke8e7", "O-O-O", "Kg1f1"], true),
@@ -316,6 +316,10 @@ const ROOTS: [(&str, &str, &[&str], &[&str], bool); 45] = [
     // the other right, and the position recurs: nothing about the position key changes on such a visit
     ("corner_visit_w", "r3k3/8/8/n3B3/8/8/8/4K3 w q - 0 1", &["Be5h8", "Na5b3", "Bh8e5", "Nb3a5"], &["Be5h8", "Be5d4"], false),
     ("corner_visit_b", "4k3/8/8/8/N2b4/8/8/4K2R b K - 0 1", &["Bd4a1", "Na4b6", "Ba1d4", "Nb6a4"], &["Bd4a1", "Bd4e5"], false),
+    // (seventh wave, C13-g) mate delivered right after the mated side's double pawn push, along a line through the skipped square
+    // (fool's mate and its mirror): the recorded flags and the `#` of the last move
+    ("fools_mate_b", gen::START_FEN, &["f2f3", "e7e5", "g2g4"], &["Qd8h4", "Qd8f6"], false),
+    ("fools_mate_w", gen::START_FEN, &["e2e4", "f7f6", "d2d4", "g7g5"], &["Qd1h5", "Qd1f3"], false),
     (
         "shuffle_knights",
         gen::START_FEN,
